@@ -3,9 +3,10 @@ verdict per harness: 'success' | 'failed' (a property failed: counterexample) | 
 import os, re, subprocess, sys, time, json
 from concurrent.futures import ThreadPoolExecutor
 
-VERIF = os.path.dirname(os.path.dirname(os.path.abspath(__file__)))
-KDIR = os.path.join(VERIF, "kani")
-LOGS = os.path.join(VERIF, ".work", "kani-logs")
+import paths
+VERIF = paths.VERIF
+KDIR = paths.crate_dir("kani")
+LOGS = os.path.join(paths.WORK, "kani-logs")
 
 
 def list_harnesses():
@@ -28,9 +29,9 @@ def build():
     lock = os.path.join(KDIR, "Cargo.lock")
     if not os.path.exists(lock):
         import shutil
-        shutil.copy("/repo/Cargo.lock", lock)
+        shutil.copy(paths.REPO + "/Cargo.lock", lock)
     t0 = time.time()
-    p = subprocess.run(["cargo", "kani", "--only-codegen", "--target-dir", os.path.join(VERIF, ".target", "kani")], cwd=KDIR, env=env,
+    p = subprocess.run(["cargo", "kani", "--only-codegen", "--target-dir", paths.target("kani")], cwd=KDIR, env=env,
                        stdout=subprocess.PIPE, stderr=subprocess.STDOUT, text=True)
     return p.returncode == 0, time.time() - t0, p.stdout[-3000:]
 
@@ -39,7 +40,7 @@ def run_one(h, timeout_s=1500, mem_gb=14, extra=()):
     os.makedirs(LOGS, exist_ok=True)
     log = os.path.join(LOGS, h + ".log")
     env = dict(os.environ, CARGO_NET_OFFLINE="true", RUSTFLAGS="--cfg qrlew_verif")
-    tdir = os.path.join(VERIF, ".target", "kani")
+    tdir = paths.target("kani")
     cmd = "ulimit -v %d; exec timeout %d cargo kani --target-dir %s --harness %s %s" % (mem_gb * 1024 * 1024, timeout_s, tdir, h, " ".join(extra))
     t0 = time.time()
     with open(log, "w") as f:
@@ -94,7 +95,7 @@ def playback(h, timeout_s=900):
     shutil.rmtree(work, ignore_errors=True)
     shutil.copytree(KDIR, work, ignore=shutil.ignore_patterns("target"))
     env = dict(os.environ, CARGO_NET_OFFLINE="true", RUSTFLAGS="--cfg qrlew_verif")
-    tdir = os.path.join(VERIF, ".target", "kani")
+    tdir = paths.target("kani")
     p = subprocess.run("timeout %d cargo kani --target-dir %s --harness %s -Z concrete-playback --concrete-playback=inplace" % (timeout_s, tdir, h),
                        shell=True, cwd=work, env=env, stdout=subprocess.PIPE, stderr=subprocess.STDOUT, text=True)
     src = open(os.path.join(work, "src", "lib.rs")).read()
